@@ -42,7 +42,8 @@ CLAIMS = {'C06': {'text': "Every random draw in src/quansino is shown (who-may-c
                  "unconditionally (or under a guard that loses nothing because the reader's default is the guarded value). Rule M (shared by every check, qsa/memo.py): no history-dependent memo on "
                  'the trial path (state that a restart does not rebuild) — a value stored under a guard on its own cache attribute and kept between calls must be keyed on, refreshed from, or reset '
                  'by every writer of, each mutable input it was computed from (ASE Atoms content split into components); an under-keyed cache is reported with the input that can change behind it and '
-                 'the public way to change it. A control module with known opaque and transparent memos is analysed on every run.',
+                 'the public way to change it. A control module with known opaque and transparent memos is analysed on every run. T4 restore-source: the entries a setattr loop replays must come from '
+                 "the top-level 'attributes' block of from_dict's argument.",
          'note': 'Not decided: step-for-step equality of the resumed trajectory (behavioural), JSON number round trip (ASE encoder, trusted; its use of obj.todict() is validated against the '
                  'installed ASE source on every run). ForceBias/AdaptiveForceBias restart is a listed known finding. Assertions in the analysed code are taken to hold (they are dropped from the '
                  'normal form).',
@@ -57,7 +58,8 @@ CLAIMS = {'C06': {'text': "Every random draw in src/quansino is shown (who-may-c
                  'call can leave, and may not make the guard true again. Rule M (shared by every check, qsa/memo.py): no history-dependent memo on observer scheduling — a value stored under a guard '
                  'on its own cache attribute and kept between calls must be keyed on, refreshed from, or reset by every writer of, each mutable input it was computed from (ASE Atoms content split '
                  'into components); an under-keyed cache is reported with the input that can change behind it and the public way to change it. A control module with known opaque and transparent '
-                 'memos is analysed on every run.',
+                 "memos is analysed on every run. O1 also substitutes per-run stored filters (sets built in irun and tested in call_observers) by their defining condition, with the run call's start "
+                 'and length enumerated.',
          'note': 'Not decided: byte identity of output files across split runs (follows from O1–O3 together with C06 and C16). Guard equivalence is exhaustive only within interval∈[-7,7], '
                  'step∈[0,20]; the predicate is piecewise in sign(interval) and step mod |interval|, which this domain covers for those intervals. Assertions in the analysed code are taken to hold '
                  '(they are dropped from the normal form).',
@@ -176,7 +178,8 @@ CLAIMS = {'C06': {'text': "Every random draw in src/quansino is shown (who-may-c
                  'an explicit refusal, not an advance. Rule M (shared by every check, qsa/memo.py): no history-dependent memo on the force-bias step — a value stored under a guard on its own cache '
                  'attribute and kept between calls must be keyed on, refreshed from, or reset by every writer of, each mutable input it was computed from (ASE Atoms content split into components); '
                  'an under-keyed cache is reported with the input that can change behind it and the public way to change it. A control module with known opaque and transparent memos is analysed on '
-                 'every run.',
+                 'every run. B bypass: an attribute the step reads that the caller may supply (update_masses) is the only place its default source may be read; another method computing something the '
+                 'step reads from that source itself is reported.',
          'note': 'Trusted: the rejection-sampling lemma (sampled law and termination with probability 1 follow from the density being in (0,1]). Differences are reported only with a numeric witness '
                  'point of the two formulas; unrecognised sources end as analysis-error. Assertions in the analysed code are taken to hold (they are dropped from the normal form).',
          'technique': 'value numbering to sympy normal forms + CFG path enumeration + derived-attribute (cache) resolution with freshness obligations + memo-site freshness analysis over the '
@@ -202,7 +205,7 @@ CLAIMS = {'C06': {'text': "Every random draw in src/quansino is shown (who-may-c
                  'recorded by a caller must be EK of those momenta. Rule M (shared by every check, qsa/memo.py): no history-dependent memo on Hamiltonian proposals — a value stored under a guard on '
                  'its own cache attribute and kept between calls must be keyed on, refreshed from, or reset by every writer of, each mutable input it was computed from (ASE Atoms content split into '
                  'components); an under-keyed cache is reported with the input that can change behind it and the public way to change it. A control module with known opaque and transparent memos is '
-                 'analysed on every run.',
+                 'analysed on every run. MB: 3N and the number of degrees of freedom are distinct symbols.',
          'note': "Reversibility and the O(dt²) energy error are the textbook theorem about this scheme (trusted), not measured. Not decided: 'up to rounding' clauses, statistics of the drawn "
                  'momenta. Differences are reported with a witness under a concrete test force F(y)=sin y + y²/3. Assertions in the analysed code are taken to hold (they are dropped from the normal '
                  'form).',
@@ -217,7 +220,8 @@ CLAIMS = {'C06': {'text': "Every random draw in src/quansino is shown (who-may-c
                  'number of index entries is accepted only if every producer of context._moving_indices hands over integer indices, never a boolean mask (two-site rule; the producer is named). Rule '
                  'M (shared by every check, qsa/memo.py): no history-dependent memo on proposal operations — a value stored under a guard on its own cache attribute and kept between calls must be '
                  'keyed on, refreshed from, or reset by every writer of, each mutable input it was computed from (ASE Atoms content split into components); an under-keyed cache is reported with the '
-                 'input that can change behind it and the public way to change it. A control module with known opaque and transparent memos is analysed on every run.',
+                 'input that can change behind it and the public way to change it. A control module with known opaque and transparent memos is analysed on every run. G3 accepts scratch copies kept '
+                 "on the operation (slice copy of the moving group, cell matrix) whose every stored value has the required form; their freshness is rule M's.",
          'note': "Trusted lemmas: the (cosθ, φ) sampler is uniform on the sphere and symmetric under d→−d; expm of a symmetric matrix is SPD with inverse expm(−T); det expm(T) = exp(tr T); ASE's "
                  "euler_rotate about 'COM' keeps the centre of mass. Not decided: uniformity in distribution, volume preservation to rounding, symmetry under a non-default mask. Assertions in the "
                  'analysed code are taken to hold (they are dropped from the normal form).',
@@ -262,7 +266,8 @@ CLAIMS = {'C06': {'text': "Every random draw in src/quansino is shown (who-may-c
                  'the index scatter. Rule M (shared by every check, qsa/memo.py): no history-dependent memo on deletion and reinsertion — a value stored under a guard on its own cache attribute and '
                  'kept between calls must be keyed on, refreshed from, or reset by every writer of, each mutable input it was computed from (ASE Atoms content split into components); an under-keyed '
                  'cache is reported with the input that can change behind it and the public way to change it. A control module with known opaque and transparent memos is analysed on every run. R1 '
-                 'carries sorting permutations: `idx[argsort(idx)]` / `np.sort(idx)` as selector requires every row source to carry the same permutation (and vice versa).',
+                 'carries sorting permutations: `idx[argsort(idx)]` / `np.sort(idx)` as selector requires every row source to carry the same permutation (and vice versa). R2 rewrite-after-loop: no '
+                 "store into the result outside the component loop may select entries by the result's own values.",
          'note': "Trusted: numpy mask/index scatter semantics, ASE's neighbour list, networkx's connected components. Rules read the normalised form of the two functions; a rewrite outside the "
                  "normaliser's reach ends as analysis-error (exit 2), not as a violation. Assertions in the analysed code are taken to hold (they are dropped from the normal form).",
          'technique': 'normalised form (helper inlining) + flow-sensitive row-scatter tracking (fresh array, complement mask) + finite case analysis + exhaustive evaluation of the size window on a '
@@ -279,7 +284,7 @@ CLAIMS = {'C06': {'text': "Every random draw in src/quansino is shown (who-may-c
                  "refreshing it in place. Rule M (shared by every check, qsa/memo.py): no history-dependent memo on the driver's use of moves and criteria — a value stored under a guard on its own "
                  'cache attribute and kept between calls must be keyed on, refreshed from, or reset by every writer of, each mutable input it was computed from (ASE Atoms content split into '
                  'components); an under-keyed cache is reported with the input that can change behind it and the public way to change it. A control module with known opaque and transparent memos is '
-                 'analysed on every run.',
+                 'analysed on every run. P3 fan-out: on the notification path only identity de-duplication may skip a stored move.',
          'note': "Decides the drivers' own code; behaviour inside user objects is out of scope. The pyright compile-fail witness pair sketched in DESIGN.md was not built (the structural rules decide "
                  'the clauses directly). Assertions in the analysed code are taken to hold (they are dropped from the normal form).',
          'technique': "who-may-access (R-OWNER) dataflow over user-object expressions + exhaustive evaluation of the step loop's routing skeleton over (moved, verdict) + memo-site freshness analysis "
